@@ -132,30 +132,45 @@ def dispatch (cf : Cfg) (a : Acc) (group : List (Nat × Nat × Nat × Config)) (
 /-- the response a committed entry's future gets -/
 def okOf (e : Entry) : Outcome := .ok e.index (if e.kind = 0 then e.data else 0)
 
-/-- the commit branch of `leaderLoop` -/
+/-! ### the commit branch of `leaderLoop`, in pieces -/
+
+/-- has a configuration entry just become committed -/
+def cbNewCfg (a : Acc) : Bool := decide (a.v.latestIdx > a.v.commit ∧ a.v.latestIdx ≤ a.lead.cm.commitIndex)
+
+/-- the new commit index, and the latest configuration becoming the committed one -/
+def cbVol (a : Acc) : Vol :=
+  let v1 : Vol := { a.v with commit := a.lead.cm.commitIndex }
+  if cbNewCfg a then { v1 with committed := v1.latest, committedIdx := v1.latestIdx } else v1
+
+/-- `stepDown`: a committed configuration took this server's vote away -/
+def cbStepDown (a : Acc) : Bool := a.lead.stepDown || (cbNewCfg a && !hasVote a.v.latest selfId)
+
+/-- the in-flight calls the commit index has reached, and the others -/
+def cbReady (a : Acc) : List (Nat × Entry) := a.lead.inflight.takeWhile (fun p => p.2.index ≤ a.lead.cm.commitIndex)
+def cbRest (a : Acc) : List (Nat × Entry) := a.lead.inflight.dropWhile (fun p => p.2.index ≤ a.lead.cm.commitIndex)
+
+/-- the answers the ready calls get (the no-op has no caller) -/
+def cbAcks (a : Acc) : List (Nat × Outcome) := ((cbReady a).filter (fun p => p.1 ≠ 0)).map (fun p => (p.1, okOf p.2))
+
+/-- `processLogs` up to the last ready call, the ready calls leave the in-flight list -/
+def cbApply (a : Acc) : Acc :=
+  let v2 := cbVol a
+  let l1 : Lead := { a.lead with stepDown := cbStepDown a }
+  match (cbReady a).getLast? with
+  | none => { a with v := v2, lead := l1 }
+  | some lastReady =>
+    let l2 : Lead := { l1 with inflight := cbRest a }
+    if lastReady.2.index ≤ v2.applied then { a with v := v2, lead := l2 }
+    else
+      match processLogs a.d.log v2.applied lastReady.2.index with
+      | none => { a with v := v2, lead := l2, panic := true }
+      | some calls =>
+        { a with v := { v2 with applied := lastReady.2.index }, fsm := a.fsm ++ calls, lead := l2,
+                 outcomes := a.outcomes ++ cbAcks a }
+
 def commitBranch (a : Acc) : Acc :=
-  let old := a.v.commit
-  let ci := a.lead.cm.commitIndex
-  let v1 : Vol := { a.v with commit := ci }
-  let newCfg := decide (v1.latestIdx > old ∧ v1.latestIdx ≤ ci)
-  let v2 : Vol := if newCfg then { v1 with committed := v1.latest, committedIdx := v1.latestIdx } else v1
-  let sd := a.lead.stepDown || (newCfg && !hasVote v2.committed selfId)
-  let ready := a.lead.inflight.takeWhile (fun p => p.2.index ≤ ci)
-  let rest := a.lead.inflight.dropWhile (fun p => p.2.index ≤ ci)
-  let a1 : Acc :=
-    match ready.getLast? with
-    | none => { a with v := v2, lead := { a.lead with stepDown := sd } }
-    | some lastReady =>
-      let idx := lastReady.2.index
-      if idx ≤ v2.applied then { a with v := v2, lead := { a.lead with stepDown := sd, inflight := rest } }
-      else
-        match processLogs a.d.log v2.applied idx with
-        | none => { a with v := v2, lead := { a.lead with stepDown := sd, inflight := rest }, panic := true }
-        | some calls =>
-          { a with v := { v2 with applied := idx }, fsm := a.fsm ++ calls,
-                   lead := { a.lead with stepDown := sd, inflight := rest },
-                   outcomes := a.outcomes ++ (ready.filter (fun p => p.1 ≠ 0)).map (fun p => (p.1, okOf p.2)) }
-  if sd then { a1 with v := { a1.v with role := .follower } } else a1
+  let a1 := cbApply a
+  if cbStepDown a then { a1 with v := { a1.v with role := .follower } } else a1
 
 def gateOpen (a : Acc) : Bool := a.v.latestIdx = a.v.committedIdx && decide (a.v.commit ≥ a.lead.cm.startIndex)
 
